@@ -617,7 +617,7 @@ impl Property for C12 {
         ]
     }
     fn cases(&self, tier: Tier) -> u64 {
-        tier.pick(10_000, 300_000)
+        tier.pick(10_000, 150_000)
     }
     fn strategy(&self, _tier: Tier) -> BoxedStrategy<Case> {
         (
